@@ -178,3 +178,28 @@ Section BVS.
      map (fun j => length (filter (fun b => nth j b false) w)) (seq 0 bs)).
   Definition c11_bvs_run := c11_spec_run c11_bvs_step c11_bvs_observe.
 End BVS.
+
+(* ---------------------------------------------------------------- ReservedVector: when does a model observation satisfy the spec
+   observation (spec values None are unspecified and match anything) *)
+Section RVM.
+  Variable T : Type.
+  Definition c11_vmatch {A : Type} (x : A) (o : option A) : Prop := forall y, o = Some y -> y = x.
+  Definition c11_rv_obs1_match (m : nat * list T * option (T * T)) (s : nat * c11_rvs_vec T * option (option T * option T)) : Prop :=
+    fst (fst m) = fst (fst s) /\ Forall2 c11_vmatch (snd (fst m)) (snd (fst s)) /\
+    match snd m, snd s with
+    | None, None => True
+    | Some (f, b), Some (sf, sb) => c11_vmatch f sf /\ c11_vmatch b sb
+    | _, _ => False
+    end.
+  Definition c11_rv_at_match (r : option (option T)) (sr : option (option (option T))) : Prop :=
+    match r, sr with
+    | None, None => True
+    | Some None, Some None => True                       (* std::out_of_range *)
+    | Some (Some x), Some (Some o) => c11_vmatch x o
+    | _, _ => False
+    end.
+  Definition c11_rv_obs_match (m : c11_rv_obs T) (s : c11_rvs_obs T) : Prop :=
+    let '(ma, mb, (e, l1, l2), r) := m in
+    let '(sa, sb, (se, sl1, sl2), sr) := s in
+    c11_rv_obs1_match ma sa /\ c11_rv_obs1_match mb sb /\ c11_vmatch e se /\ c11_vmatch l1 sl1 /\ c11_vmatch l2 sl2 /\ c11_rv_at_match r sr.
+End RVM.
